@@ -6,7 +6,6 @@ package pmm
 // frame, never blocks forever, and the totals add up afterwards.
 
 import (
-	"sort"
 	"fmt"
 	"runtime"
 	gosync "sync"
@@ -45,7 +44,7 @@ type c09Case struct {
 const c09Patience = 8 * time.Second
 
 type c09Stats struct {
-	ooms, contention, allocs, frees, doubleFrees int64
+	ooms, contention, allocs, frees, refusedFrees int64
 	skipped                          bool
 }
 
@@ -106,26 +105,11 @@ func c09Run(c c09Case) (fail *vlib.Failure, rs c09Stats) {
 		return m
 	}())
 
-	// a frame that stays free for the whole concurrent phase: the allocator hands out the lowest
-	// free frame, so with at most K frames held at any time the K+1 lowest usable frames are the
-	// only ones ever handed out - the highest usable frame can be "freed again" by anybody without
-	// racing against a legitimate owner
-	holdSum := 0
-	for _, p := range c.Progs {
-		holdSum += p.HoldMax
-	}
-	var usableList []uint64
-	for _, f := range avail {
-		if (f < kf0 || f > kf1) && !early[f] && !preHeld[f] {
-			usableList = append(usableList, f)
-		}
-	}
-	sort.Slice(usableList, func(i, j int) bool { return usableList[i] < usableList[j] })
-	neverHeld, haveNeverHeld := uint64(0), false
-	if len(usableList) > holdSum+2 {
-		neverHeld, haveNeverHeld = usableList[len(usableList)-1], true
-	}
-
+	// (Freeing a frame that is free is exercised by the single-caller probes only. As first built,
+	// the workers also "freed" the highest usable frame, on the assumption that an allocator which
+	// hands out the lowest free frame never gets that far; which free frame is handed out is the
+	// allocator's choice - the sixteenth/seventeenth seeding rounds, see DESIGN.md 9.5 - and under
+	// another policy that frame has an owner.)
 	// ---- deterministic lock-discipline probes ---------------------------------
 	if f := c09LockDiscipline(outside); f != nil {
 		return f, rs
@@ -186,16 +170,6 @@ func c09Run(c c09Case) (fail *vlib.Failure, rs c09Stats) {
 					held = append(held, uint64(f))
 					continue
 				}
-				if int((r>>8)%100) < p.BogusPct && haveNeverHeld && (r>>28)&1 == 1 {
-					// free a frame that is free: refused, and nothing may change
-					err := alloc.FreeFrame(mm.Frame(neverHeld))
-					atomic.AddInt64(&progress, 1)
-					atomic.AddInt64(&rs.doubleFrees, 1)
-					if err == nil {
-						report("worker %d: FreeFrame(%#x) of a frame that is free (never handed out) was accepted", w, neverHeld)
-					}
-					continue
-				}
 				if int((r>>8)%100) < p.BogusPct && len(outside) > 0 {
 					fr := outside[int(r>>16)%len(outside)]
 					err := alloc.FreeFrame(mm.Frame(fr))
@@ -229,38 +203,43 @@ func c09Run(c c09Case) (fail *vlib.Failure, rs c09Stats) {
 			heldAll[w] = held
 		}(w, p)
 	}
-	finished := make(chan struct{})
-	go func() { wg.Wait(); close(finished) }()
-	close(start)
-	stall, lastSeen := vlib.StartPatience(c09Patience), int64(-1)
-watch:
-	for {
-		select {
-		case <-finished:
-			break watch
-		case <-time.After(20 * time.Millisecond):
-		}
-		if p := atomic.LoadInt64(&progress); p != lastSeen {
-			lastSeen = p
-			stall.Reset()
-			continue
-		}
-		if stall.Expired() {
-			f := vlib.Failf("no allocate/free call completed for %v while %d workers are running: a call blocks forever", c09Patience, len(c.Progs))
-			atomic.AddInt64(&violations, 1)
-			giveUp := vlib.StartPatience(c09Patience)
-			for {
-				alloc.mutex.Release()
-				select {
-				case <-finished:
-					return f, rs
-				case <-time.After(100 * time.Microsecond):
-				}
-				if giveUp.Expired() {
-					vlib.Die("C09", c, f)
+	// await watches a set of running workers: no progress for c09Patience = a call blocks forever
+	await := func(finished chan struct{}, phase string) *vlib.Failure {
+		stall, lastSeen := vlib.StartPatience(c09Patience), int64(-1)
+		for {
+			select {
+			case <-finished:
+				return nil
+			case <-time.After(20 * time.Millisecond):
+			}
+			if p := atomic.LoadInt64(&progress); p != lastSeen {
+				lastSeen = p
+				stall.Reset()
+				continue
+			}
+			if stall.Expired() {
+				f := vlib.Failf("%sno allocate/free call completed for %v while %d workers are running: a call blocks forever", phase, c09Patience, len(c.Progs))
+				atomic.AddInt64(&violations, 1)
+				giveUp := vlib.StartPatience(c09Patience)
+				for {
+					alloc.mutex.Release()
+					select {
+					case <-finished:
+						return f
+					case <-time.After(100 * time.Microsecond):
+					}
+					if giveUp.Expired() {
+						vlib.Die("C09", c, f)
+					}
 				}
 			}
 		}
+	}
+	finished := make(chan struct{})
+	go func() { wg.Wait(); close(finished) }()
+	close(start)
+	if f := await(finished, ""); f != nil {
+		return f, rs
 	}
 	if atomic.LoadInt64(&violations) != 0 {
 		return vlib.Failf("%s", firstMsg.Load()), rs
@@ -276,6 +255,76 @@ watch:
 	workersHold := len(stillHeld)
 	if want := initialReserved + uint32(workersHold); alloc.reservedPages != want {
 		return vlib.Failf("after all workers stopped: reserved pages = %d, want initial %d + %d still held = %d", alloc.reservedPages, initialReserved, workersHold, want), rs
+	}
+	// ---- free-only storm ----------------------------------------------------------------
+	// Nobody allocates now, so a frame that is free stays free whatever the allocator's policy is.
+	// All workers at once give back what they still hold and, in between, "free" frames that are
+	// free (refused, and nothing may change) and frames the allocator does not manage.
+	var knownFree []uint64
+	for _, f := range avail {
+		if (f < kf0 || f > kf1) && !early[f] && !preHeld[f] && atomic.LoadInt32(&owner[index[f]]) == 0 {
+			knownFree = append(knownFree, f)
+		}
+	}
+	if len(knownFree) > 0 {
+		var swg gosync.WaitGroup
+		go2 := make(chan struct{})
+		for w, p := range c.Progs {
+			swg.Add(1)
+			go func(w int, p c09Prog) {
+				defer swg.Done()
+				<-go2
+				x := uint32(w)*40503 + p.Salt | 1
+				next := func() uint32 { x ^= x << 13; x ^= x >> 17; x ^= x << 5; return x }
+				held := heldAll[w]
+				iters := p.Iters
+				if iters > 1500 {
+					iters = 1500
+				}
+				for i := 0; (i < iters || len(held) > 0) && atomic.LoadInt64(&violations) == 0; i++ {
+					r := next()
+					switch {
+					case len(held) > 0 && (r%4 == 0 || i >= iters):
+						fr := held[len(held)-1]
+						held = held[:len(held)-1]
+						if !atomic.CompareAndSwapInt32(&owner[index[fr]], int32(w+1), 0) {
+							report("ownership table corrupt for frame %#x", fr)
+							continue
+						}
+						if err := alloc.FreeFrame(mm.Frame(fr)); err != nil {
+							report("worker %d (nobody allocates any more): FreeFrame(%#x) of a frame it holds failed: %s", w, fr, err.Message)
+						}
+						atomic.AddInt64(&rs.frees, 1)
+					case r%4 == 1 && len(outside) > 0:
+						fr := outside[int(r>>16)%len(outside)]
+						if err := alloc.FreeFrame(mm.Frame(fr)); err == nil {
+							report("worker %d: FreeFrame(%#x) of an unmanaged frame was accepted", w, fr)
+						}
+					default:
+						fr := knownFree[int(r>>8)%len(knownFree)]
+						if err := alloc.FreeFrame(mm.Frame(fr)); err == nil {
+							report("worker %d: FreeFrame(%#x) of a frame that is free was accepted (nobody allocates any more; the frame was free when the last allocation returned)", w, fr)
+						}
+						atomic.AddInt64(&rs.refusedFrees, 1)
+					}
+					atomic.AddInt64(&progress, 1)
+				}
+				heldAll[w] = held
+			}(w, p)
+		}
+		stormDone := make(chan struct{})
+		go func() { swg.Wait(); close(stormDone) }()
+		close(go2)
+		if f := await(stormDone, "free-only phase: "); f != nil {
+			return f, rs
+		}
+		if atomic.LoadInt64(&violations) != 0 {
+			return vlib.Failf("%s", firstMsg.Load()), rs
+		}
+		stillHeld = map[uint64]bool{}
+		if alloc.reservedPages != initialReserved {
+			return vlib.Failf("after every worker has given back its frames (with refused frees of free and of unmanaged frames going on at the same time): reserved pages = %d, want the initial %d", alloc.reservedPages, initialReserved), rs
+		}
 	}
 	for f := range preHeld {
 		stillHeld[f] = true
@@ -483,8 +532,8 @@ func TestVerifC09(t *testing.T) {
 		}
 		fail, rs := c09Run(c)
 		labels := []string{fmt.Sprintf("workers=%d", nw), fmt.Sprintf("pools=%d", n)}
-		if rs.doubleFrees > 0 {
-			labels = append(labels, "concurrent-free-of-a-free-frame")
+		if rs.refusedFrees > 0 {
+			labels = append(labels, "concurrent-frees-of-free-frames-while-nobody-allocates")
 		}
 		if rs.ooms > 0 {
 			labels = append(labels, "hit-out-of-memory")
